@@ -373,3 +373,153 @@ func H_C04_nested() {
 		verif.Reach("unpack failed")
 	}
 }
+
+// ---- family 3: validator tags on inline slices / arrays / maps, on fixed-size arrays, and on
+// primitive types that implement InitDefaults ----
+
+type vPosInit int
+
+var vPosInitDefault = 1
+
+func (p *vPosInit) InitDefaults() { *p = vPosInit(vPosInitDefault) }
+
+type vInlSlice struct {
+	L []int `config:",inline" validate:"min=1, max=65535"`
+}
+type vInlArr struct {
+	A [2]int `config:",inline" validate:"positive"`
+}
+type vInlDur struct {
+	L []time.Duration `config:",inline" validate:"max=1m"`
+}
+type vInlStr struct {
+	L []string `config:",inline" validate:"nonzero"`
+}
+type vSrv struct {
+	Name  string `config:"name"`
+	Ports []int  `config:",inline" validate:"min=1, max=65535"`
+}
+type vNested struct {
+	Srv vSrv `config:"srv"`
+}
+type vArrNZ struct {
+	A [2]int `config:"a" validate:"nonzero"`
+}
+type vArrReq struct {
+	A [2]int `config:"a" validate:"required"`
+}
+type vInitPrim struct {
+	X vPosInit `config:"x" validate:"positive"`
+}
+type vInlMap struct {
+	In map[string]int `config:",inline" validate:"nonzero"`
+}
+
+// H_C04_tags: err == nil implies the tag holds for what the target then contains.
+func H_C04_tags() {
+	p0, p1 := verif.Int64("p0"), verif.Int64("p1")
+	inRange := func(v int) bool { return verif.And(v >= 1, v <= 65535) }
+	which := verif.Choice("shape", 10)
+	lbl := "C04/tags: successful Unpack implies the validator tag holds/shape=" + itoa(which)
+	var uerr error
+	ok := true
+	panicked := !verif.NoPanic("C04/tags: Unpack panics/shape="+itoa(which), func() {
+		switch which {
+		case 0:
+			c, err := ucfg.NewFrom([]interface{}{p0, p1})
+			verif.Assume(err == nil)
+			var t vInlSlice
+			if uerr = c.Unpack(&t); uerr == nil {
+				ok = len(t.L) == 2 && verif.And(inRange(t.L[0]), inRange(t.L[1]))
+			}
+		case 1:
+			c, err := ucfg.NewFrom([]interface{}{p0, p1})
+			verif.Assume(err == nil)
+			var t vInlArr
+			if uerr = c.Unpack(&t); uerr == nil {
+				ok = verif.And(t.A[0] >= 0, t.A[1] >= 0)
+			}
+		case 2:
+			s := verif.Uint16("seconds")
+			c, err := ucfg.NewFrom([]interface{}{1, s})
+			verif.Assume(err == nil)
+			var t vInlDur
+			if uerr = c.Unpack(&t); uerr == nil {
+				ok = len(t.L) == 2 && verif.And(t.L[0] <= time.Minute, t.L[1] <= time.Minute)
+			}
+		case 3:
+			l := []interface{}{}
+			if verif.Choice("len", 2) == 1 {
+				l = append(l, "s")
+			}
+			c, err := ucfg.NewFrom(l)
+			verif.Assume(err == nil)
+			var t vInlStr
+			if uerr = c.Unpack(&t); uerr == nil {
+				ok = len(t.L) > 0
+			}
+		case 4:
+			c, err := ucfg.NewFrom(map[string]interface{}{"srv": map[string]interface{}{"name": "x", "0": p0, "1": p1}})
+			verif.Assume(err == nil)
+			var t vNested
+			if uerr = c.Unpack(&t); uerr == nil {
+				ok = len(t.Srv.Ports) == 2 && verif.And(inRange(t.Srv.Ports[0]), inRange(t.Srv.Ports[1]))
+			}
+		case 5, 6:
+			in := map[string]interface{}{"other": 1}
+			if verif.Choice("present", 2) == 1 {
+				in["a"] = []interface{}{p0, p1}
+			}
+			c, err := ucfg.NewFrom(in)
+			verif.Assume(err == nil)
+			// a fixed-size array always has its elements: nonzero / required hold for it
+			if which == 5 {
+				var t vArrNZ
+				uerr = c.Unpack(&t)
+			} else {
+				var t vArrReq
+				uerr = c.Unpack(&t)
+			}
+		case 7:
+			vPosInitDefault = verif.Int("initdefault")
+			in := map[string]interface{}{"other": 1}
+			if verif.Choice("present", 2) == 1 {
+				in["x"] = p0
+			}
+			c, err := ucfg.NewFrom(in)
+			verif.Assume(err == nil)
+			var t vInitPrim
+			if uerr = c.Unpack(&t); uerr == nil {
+				ok = t.X >= 0
+			}
+		case 8:
+			in := map[string]interface{}{}
+			if verif.Choice("present", 2) == 1 {
+				in["k"] = p0
+			}
+			c, err := ucfg.NewFrom(in)
+			verif.Assume(err == nil)
+			var t vInlMap
+			if uerr = c.Unpack(&t); uerr == nil {
+				ok = t.In == nil || len(t.In) > 0
+			}
+		case 9:
+			// pre-filled inline slice kept in front of the configured elements (append)
+			c, err := ucfg.NewFrom([]interface{}{p1})
+			verif.Assume(err == nil)
+			t := vInlSlice{L: []int{int(p0)}}
+			if uerr = c.Unpack(&t, ucfg.AppendValues); uerr == nil {
+				ok = len(t.L) == 2 && verif.And(inRange(t.L[0]), inRange(t.L[1]))
+			}
+		}
+	})
+	if panicked {
+		return
+	}
+	if uerr == nil {
+		verif.Reach("tags: unpack succeeded")
+		verif.Assert(ok, lbl)
+	} else {
+		verif.Reach("tags: unpack failed")
+	}
+}
